@@ -269,3 +269,7 @@ mod tests {
         assert!(!rb.is_full());
     }
 }
+
+#[cfg(any(kani, verif_replay))]
+#[path = "/verif/kani/ringbuf.rs"]
+pub(crate) mod verif_kani_ringbuf;
